@@ -4,7 +4,7 @@
    Model: Sim/Model.v (transcription of hydro_lang/src/sim/runtime.rs hooks and
    compiled.rs run_hooks).  All statements quantify over ALL queues and ALL decision scripts. *)
 From Coq Require Import List Arith Bool NArith Permutation Sorted.
-From HV Require Import Sim.Model Sim.PHooks Sim.PTick Sim.ModelTop Sim.PTop.
+From HV Require Import Sim.Model Sim.PHooks Sim.PTick Sim.Run Sim.PNoPanic Sim.ModelTop Sim.PTop.
 Import ListNotations.
 Close Scope N_scope.
 
@@ -165,25 +165,35 @@ Example C36_ex_run_hooks :
   = Ok ([HStreamT [10; 20]%N None; HStreamN [2]%N None], [([], false); ([(0, 1)]%N, true)], []).
 Proof. reflexivity. Qed.
 
-(* FINDING (known_findings.d/C36.txt, key run_hooks/passthrough-empty-with-releasable-sibling).
-   The full tick-level statement would be: on idle hooks with [can_run], run_hooks never panics
-   (and then, by C36_run_hooks_releases_new, releases something new):
-     forall hs ds, forallb idle hs = true -> can_run hs = true -> forall c, run_hooks hs ds <> Panic c.
-   It is FALSE of the faithful model: a PassthroughSingletonHook with nothing pending is ready
-   (trait default), takes no decision, and run_hooks panics with "No decision to release" or a
-   usize underflow, depending on the hook order.  Replayed on the real run_hooks (corpus/C36)
-   and end-to-end on a Hydro program (corpus/C36/e2e_fold_snapshot_with_sibling_batch.rs.txt). *)
-Theorem C36_run_hooks_no_panic_refuted :
-  exists hs ds c, forallb idle hs = true /\ can_run hs = true /\ run_hooks hs ds = Panic c.
-Proof.
-  exists [HStreamT [10]%N None; HPass [] None], [1], 5. repeat split; reflexivity.
-Qed.
-Print Assumptions C36_run_hooks_no_panic_refuted.
+(* run_hooks never panics on a tick of idle hooks that SimTick::can_run reports runnable, for
+   every decision script (a bad script is [BadScript], never a panic).  [ksingle_wf_hook]: a
+   key of a keyed singleton with an empty queue has been released before (keys only enter the
+   map together with an item).  With C36_run_hooks_releases_new: every scheduled tick
+   releases at least one new item or snapshot.
 
+   FIXED FINDING (known_findings.d/C36.txt, /repo 3c81bfcb4b9).  Before the fix this statement
+   was refuted on the faithful model (former theorem C36_run_hooks_no_panic_refuted) and on
+   the real code: a PassthroughSingletonHook with nothing pending was ready (trait default)
+   and took no decision, so
+     run_hooks [HPass [] None; HStreamT [10] None] [1] = Panic 1   ("No decision to release")
+     run_hooks [HStreamT [10] None; HPass [] None] [1] = Panic 5   (usize underflow)
+   (corpus/C36/passthrough_empty_{first,last}.json, now first-run cases that must not panic;
+   end-to-end reproducer corpus/C36/e2e_fold_snapshot_with_sibling_batch.rs.txt).  The hook now
+   re-releases its last value and is ready only once it has one. *)
+Theorem C36_run_hooks_no_panic : forall hs ds,
+  forallb idle hs = true -> can_run hs = true -> forallb ksingle_wf_hook hs = true ->
+  forall c, run_hooks hs ds <> Panic c.
+Proof. exact run_hooks_no_panic. Qed.
+Print Assumptions C36_run_hooks_no_panic.
+
+(* the former witnesses: not runnable while the passthrough hook never had a value, and a
+   plain re-release once it has *)
 Example C36_run_hooks_passthrough_empty :
-  can_run [HPass [] None; HStreamT [10]%N None] = true
-  /\ run_hooks [HPass [] None; HStreamT [10]%N None] [1] = Panic 1
-  /\ run_hooks [HStreamT [10]%N None; HPass [] None] [1] = Panic 5.
+  can_run [HPass [] None None; HStreamT [10]%N None] = false
+  /\ run_hooks [HPass [] None (Some 7%N); HStreamT [10]%N None] [1]
+     = Ok ([HPass [] None (Some 7%N); HStreamT [] None], [([(0, 7)]%N, false); ([(0, 10)]%N, true)], [])
+  /\ run_hooks [HStreamT [10]%N None; HPass [] None (Some 7%N)] [1]
+     = Ok ([HStreamT [] None; HPass [] None (Some 7%N)], [([(0, 10)]%N, true); ([(0, 7)]%N, false)], []).
 Proof. repeat split; reflexivity. Qed.
 
 (* and without the idle hypothesis the forced rule fails (a pending trivial manual decision): *)
